@@ -5,6 +5,7 @@
 //
 // request line (stdin):
 //   run q=<queue size> min=<minThreads> max=<maxThreads> lazy=<0|1> tick=<ms per clock call> sp=<spurious budget>
+//       cf=<bit mask: bit k = the k-th creation of a pool worker fails>
 //       pol=<np|rand> seed=<n> bound=<step bound> flush=<0|1> split=<0|1> pre=<t,t,...|-> dev=<step:t,step:t,...|-> | <client 1 ops> | <client 2 ops> ...
 //   client ops:  s<f>:<a>:<b> start int future f with body(a,b)   S<f>:<a>:<b> start void future f
 //                j/J join   r result conversion (int futures)   a/A abort   q/Q query flags   d/D destroy + re-create
@@ -205,6 +206,7 @@ static int runScenario(char* line)
   sched_set_devs(dsteps, dthreads, ndev);
   g_ncpu = (uint)kv(line, "ncpu", 4);
   int split = (int)kv(line, "split", 0);
+  sched_set_create_failures((unsigned)kv(line, "cf", 0));   // cf=<mask>: which creations of pool workers fail (Thread::start returns false)
   sched_reset((unsigned long long)seed, pol, pre, npre, maxsteps, sp, tick, split);
   printf("P %d\n", split);
 #ifdef NSTD_VERIF_FUTURE_HOOKS
@@ -239,7 +241,7 @@ int main()
     if(strncmp(line, "run ", 4) != 0) { if(line[0] != '\n') { printf("bad-request\nend 2\n"); fflush(stdout); } continue; }
     fflush(stdout);
     pid_t c = fork();
-    if(c == 0) { alarm(30); int r = runScenario(line + 3); printf("bad-scenario\n"); fflush(stdout); _exit(r ? r : 3); }
+    if(c == 0) { alarm(30); int r = runScenario(line + 3); printf("bad-scenario\n"); fflush(stdout); nv_leave(r ? r : 3); }
     int st = 0; waitpid(c, &st, 0);
     if(WIFEXITED(st)) printf("end %d\n", WEXITSTATUS(st)); else printf("end signal %d\n", WIFSIGNALED(st) ? WTERMSIG(st) : -1);
     fflush(stdout);
